@@ -57,7 +57,7 @@ def slim(tr, kinds=None, drop=('headers', 'msg', 'url', 'host', 'port', 'key', '
 
 
 def run_model_instances(run, mc_module, monitor, instances, variants=None, kinds=None, judge_field='.tr',
-                        post=None, max_exec=None):
+                        post=None, max_exec=None, extra_results=None):
     """instances: list of dicts {label, consts (overrides of DEFAULTS + HttpItems/Items/Cfg names), cfg (python dict
     of the Cfg record), simulate (optional 'num=..'), depth}.
     variants(scenario, behaviour) -> list of (tag, scenario) executed for each behaviour (default: as is).
@@ -123,6 +123,7 @@ def run_model_instances(run, mc_module, monitor, instances, variants=None, kinds
                                                     "model_drift": ndrift})
         if ndrift:
             run.note('model-drift %s %d traces (instance %s) first=%s' % (run.prop, ndrift, inst['label'], json.dumps(first)[:400]))
+    results.extend(extra_results or [])
     run.evaluations += len(results)
     run.traces += len(results)
     # judge
@@ -138,7 +139,7 @@ def run_model_instances(run, mc_module, monitor, instances, variants=None, kinds
 
 def standard_run(prop, tier, seed, mc_module, monitor, instances, kinds, rule, nontrivial, anchors=None,
                  variants=None, post=None, judge_field='.tr', exhaustive=None, extra=None, known_sig=None,
-                 sample_keys=('ev',), max_exec=None):
+                 sample_keys=('ev',), max_exec=None, random_scripts=None):
     """The whole pipeline for one property decided on the session model."""
     r = pipeline.Run(prop, tier, seed)
     r.rule = rule
@@ -147,10 +148,20 @@ def standard_run(prop, tier, seed, mc_module, monitor, instances, kinds, rule, n
                      'bounds of each model instance are listed under coverage.detail.instances / tlc_runs']
     if extra:
         extra(r)
+    extra_results = []
+    if random_scripts:
+        # code -> spec: seeded random scripts beyond the model bounds; TLC validates each recorded execution as a behaviour of
+        # Lomond.tla (spec/TraceLomond.tla) and the property monitor judges it like every other trace
+        from . import tracevalid
+        for rs in random_scripts:
+            scs, logs, acc = tracevalid.validate(r, tier, rs['cfgname'], rs['cfg'], rs['n'][0 if tier == 'quick' else 1], mc='MC_Sess',
+                                                 items=rs['items'], http=rs.get('http', 'HttpOk'), faults=rs.get('faults'),
+                                                 after_close=rs.get('after_close', False))
+            extra_results.extend(('random-script/' + rs['cfgname'], {"script": None, "obs": None}, sc, log) for sc, log in zip(scs, logs))
     if max_exec is None and tier == 'thorough':
         max_exec = 40000        # behaviours replayed per model instance (seeded sample when the model has more)
     results, rej = run_model_instances(r, mc_module, monitor, instances, variants=variants, kinds=kinds, post=post,
-                                       judge_field=judge_field, max_exec=max_exec)
+                                       judge_field=judge_field, max_exec=max_exec, extra_results=extra_results)
     nt = set()
     seen = set()
     for label, b, sc, log in results:
